@@ -424,6 +424,15 @@ fn check_graph<K: Kmer + Send + Sync + Serialize + DeserializeOwned>(c: &GCase) 
     let uniq = format!("dbgv-{}-{:x}-{:?}", std::process::id(), c.aux, std::thread::current().id()).replace(|ch: char| !ch.is_ascii_alphanumeric() && ch != '-', "");
     let p1 = dir.join(format!("{}.gfa", uniq));
     let p2 = dir.join(format!("{}.tags.gfa", uniq));
+    // scratch files go away on every exit path (early return, panic caught by the runner)
+    struct Rm(std::path::PathBuf, std::path::PathBuf);
+    impl Drop for Rm {
+        fn drop(&mut self) {
+            let _ = std::fs::remove_file(&self.0);
+            let _ = std::fs::remove_file(&self.1);
+        }
+    }
+    let _rm = Rm(p1.clone(), p2.clone());
     // the target paths already hold longer files: an export must replace them, not overwrite a prefix
     let stale = format!("{}S\t999999\tACGTACGT\nL\t999999\t+\t999999\t+\t3M\n{}", gfa, "X".repeat(64));
     std::fs::write(&p1, &stale).map_err(|e| e.to_string())?;
